@@ -22,7 +22,8 @@ ARITH = ("Overflow(", "OverflowNeg", "DivisionByZero", "RemainderByZero", "Bound
 # Assert sinks whose operands carry the label but are bounded, each confirmed by reading.  key: (fn path, assert kind) -> (count, reason)
 SAFE_ASSERTS = {
     ("mos_core::io::binary_writer::Bank::merge", "Overflow(Sub)"):
-        (4, "operands are segment/bank ranges (≤ $10000 by Segment::emit's check); the subtrahend is the min()/the smaller one by the enclosing comparison"),
+        (4, "operands are ranges of *non-empty* segments (merge_segments filters out segments nothing was emitted to — checked by C09 R9.6 — and every "
+            "emission passed Segment::emit's ≤ $10000 check); the subtrahend is the min()/the smaller one by the enclosing comparison"),
     ("mos_core::io::binary_writer::Bank::prg_header", "Overflow(Shr)"):
         (1, "shift by the constant 8"),
     ("mos_core::io::binary_writer::BinaryWriter::merge_segments", "Overflow(Sub)"):
@@ -117,7 +118,7 @@ SAFE_CALLS = {
     ("mos_core::codegen::segment::Segment::emit", "Vec::splice"):
         (1, "dominated by the `start > 0xffff || end > 0x10000 → return false` guard in the same function"),
     ("mos_core::io::binary_writer::Bank::merge", "alloc::vec::from_elem"):
-        (3, "sizes are differences of segment/bank ranges, bounded by $10000"),
+        (3, "sizes are differences of ranges of non-empty segments (see above), bounded by $10000"),
     ("mos_core::io::binary_writer::Bank::merge", "core::ops::index::IndexMut::index_mut"):
         (1, "range relative to the merged bank range that was just grown to contain it"),
     ("mos_core::codegen::segment::Segment::range_data", "core::ops::index::Index::index"):
@@ -228,6 +229,75 @@ def r68(ctx, fx, scope):
                         "(`not a char boundary`)" % (f.path, t.get("line")), "%s:%s" % (f.file, t.get("line")))
     if n < 3:
         ctx.fail_closed(rid, "fewer than 3 string-slicing sites found in scope (%d)" % n)
+
+
+def r69(ctx, fx):
+    rid = ctx.rule("R6.9", "recursion that follows the import graph is guarded: in the Import arm of emit_token the emission of the imported file's tokens is preceded, "
+                   "on every path, by a membership test of the resolved path on a stack of files being imported (whose hit returns an error), and the push is "
+                   "paired with a pop that an error of the body cannot skip")
+    et = fx.fn("mos_core::codegen::CodegenContext::emit_token")
+    if et is None:
+        ctx.fail_closed(rid, "emit_token not found")
+        return
+    arm = None
+    for n in lib.hwalk(et.hir["body"]):
+        if n.get("k") == "match":
+            for a in n["arms"]:
+                pk = lib.pat_key(a["pat"])
+                if isinstance(pk, str) and pk.split("(")[0] == "mos_core::parser::ast::Token::Import":
+                    arm = a
+            break
+    key = "emit_token|Import|cycle-guard"
+    ctx.inst(rid, key)
+    if arm is None:
+        ctx.fail_closed(rid, "Token::Import arm not found")
+        return
+    guard = None
+    for n in lib.hwalk(arm["body"]):
+        if n.get("k") == "if":
+            d = repr(lib.hdesc(n["cond"]))
+            if "contains" in d and "resolved_path" in d and any(r.get("k") == "ret" and lib.pm(lib.hcallee(lib.strip(r.get("a", {}))), "Result::Err") for r in lib.hwalk(n["then"])):
+                guard = n
+    emits = [x for x, p in lib.hir_calls(arm["body"], "CodegenContext::emit_tokens") if "imported_file_tokens" in repr(lib.hdesc(lib.hargs(x)[1])) or "tokens" in repr(lib.hdesc(lib.hargs(x)[1]))]
+    if guard is None:
+        ctx.finding(rid, key, "the Import arm expands the imported file without checking whether that file is already being imported: a file that imports itself "
+                    "(directly or through others) recurses until the stack overflows", "%s:%s" % (et.file, arm.get("ln")))
+    elif not emits or any(e.get("ln", 0) < guard.get("ln", 0) for e in emits):
+        ctx.finding(rid, key, "imported tokens are emitted before the cycle check", "%s:%s" % (et.file, arm.get("ln")))
+    # push / pop pairing around the with_scope call: result bound, pop, then `?`
+    key2 = "emit_token|Import|stack-balanced"
+    ctx.inst(rid, key2)
+    seq = []
+    for n in lib.hwalk(arm["body"]):
+        if n.get("k") == "mcall" and lib.hdesc(n["recv"])[:2] == ("f", "import_stack") and n.get("name") in ("push", "pop"):
+            seq.append((n.get("ln"), n["name"]))
+        if n.get("k") in ("mcall", "call") and lib.pm(lib.hcallee(n), "CodegenContext::with_scope"):
+            seq.append((n.get("ln"), "scope"))
+    names = [x[1] for x in sorted(seq)]
+    if guard is not None and names != ["push", "scope", "pop"]:
+        ctx.finding(rid, key2, "the import stack is not pushed before and popped after the import's emission (%s)" % names, "%s:%s" % (et.file, arm.get("ln")))
+    # no exit between the push and the pop: outside the closure handed to with_scope, no `?` and no `return` lies between them
+    if guard is not None and names == ["push", "scope", "pop"]:
+        pos = dict((nm, ln) for ln, nm in seq)
+
+        def outside_closures(n):
+            stack = [n]
+            while stack:
+                x = stack.pop()
+                if isinstance(x, dict):
+                    if x.get("k") == "closure":
+                        continue
+                    yield x
+                    stack.extend(v for v in x.values() if isinstance(v, (dict, list)))
+                elif isinstance(x, list):
+                    stack.extend(v for v in x if isinstance(v, (dict, list)))
+        exits = [x for x in outside_closures(arm["body"])
+                 if ((x.get("k") == "match" and str(x.get("src", "")).startswith("TryDesugar")) or x.get("k") == "ret")
+                 and x.get("ln") is not None and pos["push"] < x["ln"] < pos["pop"] or
+                 (x.get("k") == "match" and str(x.get("src", "")).startswith("TryDesugar") and x.get("ln") == pos["scope"])]
+        if exits:
+            ctx.finding(rid, key2 + "|early-return", "an error of the imported file's emission leaves the function before the import stack is popped: the file stays "
+                        "on the stack and every later import of it is reported as cyclic", "%s:%s" % (et.file, exits[0].get("ln")))
 
 
 def r63(ctx, fx):
@@ -385,6 +455,56 @@ def r67(ctx, fx):
     ctx.floor(rid, 200, "core functions scanned")
 
 
+IO_UNWRAP_OK = {
+    # fn path suffix -> (count, reason)
+    "mos_core::parser::ast::ParseTree::try_get_file": (1, "Path::absolutize() fails only when the process's working directory cannot be determined; `run` has resolved "
+                                                          "it before anything is parsed (mos_toml_path canonicalizes `.` and propagates the error: instance of this rule)"),
+    "mos_core::parser::code_map::CodeMap::new": (1, "same"),
+    "mos_core::parser::parse": (1, "same"),
+}
+IO_ERRORS = ("std::io::error::Error", "alloc::string::FromUtf8Error", "core::str::error::Utf8Error", "toml::de::Error", "fs_err::")
+
+
+def r610(ctx, fx, scope):
+    rid = ctx.rule("R6.10", "no unwrap/expect on a Result whose error is an I/O, UTF-8 or configuration-syntax error in code reachable from the command line entry "
+                   "(`run`, build, format, parse, codegen, listing): missing or unreadable files, invalid UTF-8 and a vanished directory are diagnosed, not panics")
+    extra = []
+    for sfx in ("mos::run", "mos::mos_toml_path", "mos::main"):
+        f_ = fx.fn(sfx)
+        if f_ is None:
+            ctx.fail_closed(rid, "%s not found" % sfx)
+        else:
+            extra.append(f_.id)
+    ids = set(scope) | set(extra)
+    seen = {}
+    nfn = 0
+    for i in sorted(ids, key=lambda i: fx.fns[i].path):
+        f = fx.fns[i]
+        if not f.d.get("hir") or "::tests::" in f.path or "::testing" in f.path or f.crate not in ("mos", "mos_core"):
+            continue
+        nfn += 1
+        k0 = 0
+        for x in lib.hwalk(f.hir["body"]):
+            if x.get("k") == "mcall" and x.get("name") in ("unwrap", "expect", "unwrap_unchecked"):
+                ty = lib.strip(x["recv"]).get("ty") or ""
+                if ty.startswith("core::result::Result<") and any(e in ty.rsplit(", ", 1)[-1] for e in IO_ERRORS):
+                    k0 += 1
+                    key = "%s|%s#%d" % (f.path, x["name"], k0)
+                    ctx.inst(rid, key, sample={"fn": f.path, "line": x.get("ln"), "type": ty[:100]})
+                    ok = IO_UNWRAP_OK.get(f.path)
+                    seen[f.path] = seen.get(f.path, 0) + 1
+                    if ok and seen[f.path] <= ok[0] and "Path" in ty:
+                        continue
+                    ctx.finding(rid, key, "%s() on %s in %s: an error of the environment (missing/unreadable file, vanished directory, invalid UTF-8) panics instead of "
+                                "being reported" % (x["name"], ty[:90], f.path), "%s:%s" % (f.file, x.get("ln")))
+        if k0 == 0:
+            ctx.inst(rid, f.path, nontrivial=False)
+    for pth, (cnt, why) in IO_UNWRAP_OK.items():
+        if seen.get(pth, 0) != cnt:
+            ctx.fail_closed(rid, "tabled exception %s expected %d site(s), found %d" % (pth, cnt, seen.get(pth, 0)))
+    ctx.floor(rid, 300, "functions scanned")
+
+
 def run(ctx):
     fx = ctx.facts
     T = taint.Taint(fx, "USERINT", source_calls=USERINT_SOURCES, source_fields=USERINT_FIELDS, carrier=taint.INT_CARRIER)
@@ -408,11 +528,13 @@ def run(ctx):
     r61(ctx, fx, T, scope)
     r62(ctx, fx, T, scope)
     r68(ctx, fx, scope)
+    r69(ctx, fx)
+    r610(ctx, fx, scope)
     r63(ctx, fx)
     r64(ctx, fx)
     r65(ctx, fx)
     r67(ctx, fx)
-    ctx.not_decided("absence of *all* panics (internal-invariant unwraps are not dischargeable statically); stack depth on import cycles and nested constructs; "
+    ctx.not_decided("absence of *all* panics (internal-invariant unwraps are not dischargeable statically); stack depth on deeply nested (non-cyclic) constructs; "
                     "that diagnostic locations lie inside existing files; invalid UTF-8 / unreadable files")
     ctx.assume("label propagation is field-based and context-insensitive; flows through external trait objects, unsafe code and interior mutability of external "
                "types are not tracked (rules/taint.py)")
